@@ -263,3 +263,8 @@ def run(ctx):
             else:
                 ctx.bad('C20.5-proplist-siblings', nm, '%s handles %s; its siblings handle 2-tuples and bare atoms (%s handles %s)' % (nm, sorted(core), ref[0], sorted(ref[1])),
                         key='TABLE:proplist:%s' % nm.replace(' ', '_'))
+
+    # dependency: Atom::new
+    ctx.rule('C20.1-atom-interning', 'map keys and atom values of the wrappers and proplist helpers are built and looked up with Atom::new: its interning tables agree entry by entry', floor=1)
+    from ..etf import check_atom_tables
+    check_atom_tables(ctx, 'C20.1-atom-interning')
